@@ -226,7 +226,9 @@ def extraRes (r : Fail.St × Option Err) (f : Fail.St → St) : Res :=
 @[simp] theorem extraRes_none (s : Fail.St) (f) : extraRes (s, Option.none) f = .norm (f s) := rfl
 @[simp] theorem extraRes_some (s : Fail.St) (e : Err) (f) : extraRes (s, some e) f = .exc (f s) e := rfl
 
-theorem set_extra_step (call : CallT) (body : Block) (hbody : body = set_for5) (w : FW) (k : Nat) (pv : PV)
+theorem set_extra_step (call : CallT)
+    (hcall : ∀ (w : FW) (k : Nat) (pv : PV), call "__setattr__" [PV.name k, pv] [] w = propOutcome w (setProp w k))
+    (body : Block) (hbody : body = set_for5) (w : FW) (k : Nat) (pv : PV)
     (hk : Nat.blt k (clsOf w.sch w.c).cols.length = false)
     (v0 v1 v2 a3 a4 a5 a6 a7 v8 v9 v10 v11 : Option PV) (ls : List (List PV)) (d0 d1 d2 d3 : PDict) :
     bindThen (.two 3 4) (fun st' => Block.exec call st' body)
@@ -241,14 +243,14 @@ theorem set_extra_step (call : CallT) (body : Block) (hbody : body = set_for5) (
   · have hr : setProp w k = (w.s, some .typeError) := by
       simp [setProp, hu, Fail.extras, run_fail]
     rw [hr]
-    pfonly [hk, hk', FW.hasAttr, hu, FW.ncols, FW.setS]
+    pfonly [hk, hk', FW.hasAttr, hu, FW.ncols, FW.setS, hcall]
   · have hu' : (w.props k != Extra.unknown) = true := by simpa using hu
     generalize hr : setProp w k = r
     obtain ⟨s1, e⟩ := r
     cases e with
-    | none => pfonly [hk, hk', FW.hasAttr, hu, hu', FW.ncols, hr, FW.setS]
+    | none => pfonly [hk, hk', FW.hasAttr, hu, hu', FW.ncols, hr, FW.setS, hcall]
     | some e =>
-      pfonly [hk, hk', FW.hasAttr, hu, hu', FW.ncols, hr, FW.setS]
+      pfonly [hk, hk', FW.hasAttr, hu, hu', FW.ncols, hr, FW.setS, hcall]
       by_cases he : Err.attrError = e
       · subst he; simp
       · simp [he]
@@ -258,7 +260,9 @@ theorem blt_false_of (k n : Nat) (h : Nat.blt k n = false) : ¬ k < n := by
   intro h'; rw [← Nat.blt_eq, h] at h'; exact absurd h' (by simp)
 
 /-- the loop over the extra keywords (loop 5 eager, loop 3 lazy): the hand model's `extras` tree, keyword by keyword -/
-theorem set_extra_loop (call : CallT) (body : Block) (hbody : body = set_for5) (exs : List (Nat × In)) :
+theorem set_extra_loop (call : CallT)
+    (hcall : ∀ (w : FW) (k : Nat) (pv : PV), call "__setattr__" [PV.name k, pv] [] w = propOutcome w (setProp w k))
+    (body : Block) (hbody : body = set_for5) (exs : List (Nat × In)) :
     ∀ (w : FW) (v0 v1 v2 a3 a4 a5 a6 a7 v8 v9 v10 v11 : Option PV) (ls : List (List PV)) (d0 d1 d2 d3 : PDict),
       (∀ e ∈ exs, Nat.blt e.1 (clsOf w.sch w.c).cols.length = false) →
       ∃ b3 b4,
@@ -274,7 +278,7 @@ theorem set_extra_loop (call : CallT) (body : Block) (hbody : body = set_for5) (
   | cons x exs ih =>
     intro w v0 v1 v2 a3 a4 a5 a6 a7 v8 v9 v10 v11 ls d0 d1 d2 d3 hge
     obtain ⟨k, inp⟩ := x
-    have hstep := set_extra_step call body hbody w k (pvOfIn inp) (hge (k, inp) (by simp))
+    have hstep := set_extra_step call hcall body hbody w k (pvOfIn inp) (hge (k, inp) (by simp))
       v0 v1 v2 a3 a4 a5 a6 a7 v8 v9 v10 v11 ls d0 d1 d2 d3
     simp only [List.map_cons, forLoop, hstep]
     rw [run_extras_cons]
